@@ -16,7 +16,7 @@ import (
 // C03 — inbound streams decode exactly, violations are rejected, no panic.
 
 func init() {
-	register(&Prop{ID: "C03", Run: runC03, Quick: 8000, Thorough: 300000, Level: "exploration"})
+	register(&Prop{ID: "C03", Run: runC03, Quick: 20000, Thorough: 300000, Level: "exploration"})
 }
 
 var extChoices = []string{
